@@ -621,9 +621,9 @@ theorem correct_call_order : calls_Invoice_Correct =
     ["new", "prepareCorrectionOptions", "New", "Clone", "Clone", "Today", "correctionDef", "validatePrecedingData", "Calculate"] := by decide
 /-- Envelope.Correct / Replicate: clone, act on the clone, brand-new envelope -/
 theorem envelope_correct_calls : calls_Envelope_Correct =
-    ["len", "append", "len", "len", "WithHead", "Clone", "wrapError", "Correct", "wrapError", "Envelop"] := by decide
+    ["IsEmpty", "len", "append", "len", "len", "WithHead", "Clone", "wrapError", "Correct", "wrapError", "Envelop"] := by decide
 theorem envelope_replicate_calls : calls_Envelope_Replicate =
-    ["Clone", "wrapError", "Replicate", "wrapError", "Envelop"] := by decide
+    ["IsEmpty", "Clone", "wrapError", "Replicate", "wrapError", "Envelop"] := by decide
 theorem envelop_is_new_envelope : calls_Envelop = ["NewEnvelope", "Insert"] := by decide
 theorem invoice_replicate_body : body_Invoice_Replicate =
     "{ inv.UUID = uuid.Empty inv.Code = \"\" inv.IssueDate = cal.Today() inv.ValueDate = nil inv.OperationDate = nil return nil }" := by decide
